@@ -50,7 +50,11 @@ func ExtractProperties(conditions map[connor.FilterKey]any) map[int]Property {
 		case *mapper.PropertyIndex:
 			prop := properties[typedKey.Index]
 			prop.Index = typedKey.Index
-			relatedProps := ExtractProperties(v.(map[connor.FilterKey]any))
+			var relatedProps map[int]Property
+			// the condition block of a field can be null, in which case there is nothing to descend into
+			if fieldConditions, ok := v.(map[connor.FilterKey]any); ok {
+				relatedProps = ExtractProperties(fieldConditions)
+			}
 			properties[typedKey.Index] = mergeProps(prop, Property{Fields: relatedProps})
 		case *mapper.Operator:
 			if typedKey.Operation == request.FilterOpAnd || typedKey.Operation == request.FilterOpOr {
